@@ -476,6 +476,58 @@ theorem others_hold : Valid (splitLines bytes) 0 0 [hk] ∧ splitLines newbytes 
   (runPatch InstanceAgain.ot s1).2.fs.lookup name == some (.file (str "a \n}\na \n}\n{\nc\nfoo\n") 0o644)
 end ContextFree
 
+/-! ### a removal which was skipped, or failed, removes nothing (D110)
+
+`-E` (or `--posix` leaving an empty file behind): `f` is there and empty, the patch removes the one line `a` of `f` (new name
+`/dev/null`).  The removal has been applied before: with `-N` it is recognised as such and skipped; with `-f` its hunk fails.  Either
+way the output is empty — it is the file as it was —, and before the fix "only a patch which was applied removes the file" that was
+taken for the result of the removal: the empty file `f` was unlinked.  A concrete instance, evaluated in the kernel. -/
+namespace SkippedRemoval
+def name : Bytes := [102]                                  -- "f"
+def pname : Bytes := [112, 46, 100, 105, 102, 102]         -- "p.diff"
+def text : Bytes :=
+  [45, 45, 45, 32, 102, 9, 116, 10, 43, 43, 43, 32, 47, 100, 101, 118, 47, 110, 117, 108, 108, 9, 116, 10,
+   64, 64, 32, 45, 49, 32, 43, 48, 44, 48, 32, 64, 64, 10, 45, 97, 10]
+#guard name == str "f" && pname == str "p.diff" && text == str "--- f\tt\n+++ /dev/null\tt\n@@ -1 +0,0 @@\n-a\n"
+def s0 : DState := { fs := { nodes := [(name, .file [] 0o644), (pname, .file text 0o644)] } }
+/-- `-N -E -i p.diff f` -/
+def oN : Options := { defaultOptions with fileToPatch := name, patchFile := pname, ignoreReversed := true, removeEmptyFiles := .yes }
+/-- `-f -E -i p.diff f` -/
+def oF : Options := { defaultOptions with fileToPatch := name, patchFile := pname, force := true, removeEmptyFiles := .yes }
+
+/-- **a delete section which is skipped (`-N`: previously applied) leaves the existing empty target in place**: exit status 1, the
+    patch is reported as skipped, `f` is still there (empty, mode kept), no `unlink` in the trace -/
+theorem skipped_removal_keeps_empty_file :
+    (runPatch oN s0).1 = 1 ∧
+    (runPatch oN s0).2.fs.lookup name = some (.file [] 0o644) ∧
+    (∀ op ∈ (runPatch oN s0).2.trace, ∀ q, op ≠ FsOp.unlink q) ∧
+    DEv.msg .skippingPatch ∈ (runPatch oN s0).2.out := by
+  refine ⟨by decide +kernel, by decide +kernel, ?_, by decide +kernel⟩
+  have : ((runPatch oN s0).2.trace.all fun op => match op with | .unlink _ => false | _ => true) = true := by decide +kernel
+  intro op hop q e
+  have := List.all_eq_true.1 this op hop
+  rw [e] at this
+  cases this
+
+/-- the same for a removal whose hunk failed (`-f`: no question, no reversal): exit status 1, `f` still there, no `unlink` -/
+theorem failed_removal_keeps_empty_file :
+    (runPatch oF s0).1 = 1 ∧
+    (runPatch oF s0).2.fs.lookup name = some (.file [] 0o644) ∧
+    (∀ op ∈ (runPatch oF s0).2.trace, ∀ q, op ≠ FsOp.unlink q) := by
+  refine ⟨by decide +kernel, by decide +kernel, ?_⟩
+  have : ((runPatch oF s0).2.trace.all fun op => match op with | .unlink _ => false | _ => true) = true := by decide +kernel
+  intro op hop q e
+  have := List.all_eq_true.1 this op hop
+  rw [e] at this
+  cases this
+
+/-- and the removal still removes: `f` holds the line, the patch applies: `f` is unlinked -/
+def s1 : DState := { fs := { nodes := [(name, .file [97, 10] 0o644), (pname, .file text 0o644)] } }
+theorem applied_removal_removes :
+    (runPatch oN s1).1 = 0 ∧ (runPatch oN s1).2.fs.lookup name = none ∧ FsOp.unlink name ∈ (runPatch oN s1).2.trace := by
+  refine ⟨by decide +kernel, by decide +kernel, by decide +kernel⟩
+end SkippedRemoval
+
 end PatchModel.C06Run
 
 #print axioms PatchModel.C06Run.againSection_N
@@ -490,5 +542,8 @@ end PatchModel.C06Run
 #print axioms PatchModel.C06Run.InstanceAgain.applies_t
 #print axioms PatchModel.C06Run.Ambiguous.others_hold
 #print axioms PatchModel.C06Run.ContextFree.others_hold
+#print axioms PatchModel.C06Run.SkippedRemoval.skipped_removal_keeps_empty_file
+#print axioms PatchModel.C06Run.SkippedRemoval.failed_removal_keeps_empty_file
+#print axioms PatchModel.C06Run.SkippedRemoval.applied_removal_removes
 #print axioms PatchModel.RunV.C06_N_full
 #print axioms PatchModel.RunV.C06_t_full
